@@ -498,6 +498,8 @@ func litestream.(*Replica).Restore(r, ctx, opt) (err)
   at litestream.(*Replica).maxTXID#1 set fl_maxErr = $result1
   at litestream.(*Replica).follow#1 assert [C16.resume-from-sidecar] $arg1 == opt.OutputPath && $arg2 == fl_saved && fl_saved > 0 && fl_readErr == nil
   at litestream.(*Replica).follow#1 set fl_resumed = true
+  at litestream.WriteTXIDFile#1 assert [C16.initial-sidecar] $arg0 == opt.OutputPath && len(infos) >= 1 && $arg1 == infos[len(infos) - 1].MaxTXID && c10_planErr == nil
+  at litestream.(*Replica).follow#2 assert [C16.follow-from-restored] $arg1 == opt.OutputPath && len(infos) >= 1 && $arg2 == infos[len(infos) - 1].MaxTXID
   ensures [C16.resume] opt.Follow && opt.OutputPath != "" && opt.TXID == 0 && isZero(opt.Timestamp) && (opt.IntegrityCheck == 0 || opt.IntegrityCheck == 1 || opt.IntegrityCheck == 2) && fl_statErr == nil && fl_readErr == nil && fl_saved > 0 && fl_listErr == nil && fl_iterErr == nil && fl_maxErr == nil && reachableTXID(old(r.Client), fl_saved) ==> fl_resumed
   loop 0 invariant snapshotItr != nil && itOK(snapshotItr) && it_client[snapshotItr] == old(r.Client) && it_level[snapshotItr] == 9 && wfLevel(old(r.Client), 9) && r == old(r)
   loop 0 invariant latestSnapshot == nil || (exists k int :: {item(snapshotItr, k)} 0 <= k && k < it_idx[snapshotItr] && latestSnapshot == item(snapshotItr, k))
@@ -615,14 +617,18 @@ func litestream.(*Replica).MaxLTXFileInfo(r, ctx, level) (info, err)
   loop 0 invariant info.MaxTXID < 9223372036854775807 && (forall k int :: {item(itr, k)} 0 <= k && k < it_idx[itr] ==> fmax(item(itr, k)) <= info.MaxTXID)
   loop 0 invariant fresh(itr) && (forall i int :: {it_idx[i]} old(allocated(i)) ==> it_idx[i] == old(it_idx[i]))
 
+ghost c05_l0max Int
 func litestream.(*Replica).calcPos(r, ctx) (pos, err)
   requires r != nil
-  modifies $alloc, it_idx
+  modifies $alloc, it_idx, c05_l0max
+  at litestream.(*Replica).MaxLTXFileInfo#1 assert [C05.calcpos-level0] $recv == r && $arg1 == 0
+  at litestream.(*Replica).MaxLTXFileInfo#1 set c05_l0max = $result0.MaxTXID
   ensures [C05.calcpos] err == nil ==> pos.TXID < 9223372036854775807
+  ensures [C05.calcpos-is-l0-max] err == nil ==> pos.TXID == c05_l0max && (forall k int :: {replFile(old(r.Client), 0, k)} 0 <= k && k < replN(old(r.Client), 0) ==> fmax(replFile(old(r.Client), 0, k)) <= pos.TXID)
 
 func litestream.(*Replica).syncOnce(r, ctx, maxSyncLTXFiles) (result, err)
   requires r != nil && r.db != nil && !c05_uploaded && r.pos.TXID < 9223372036854775807 && pos_verifyErr == nil
-  modifies $alloc, it_idx, l0_has, file_closed, c05_writeErr, c05_upErr, c05_dpos, c05_uploaded, c05_lockErr, r.pos, all(litestream.DB), pos_verifyErr, all(ltx.Decoder), all(ltx.Header), all(ltx.Trailer), all(litestream.LTXError), all(ltx.PageHeader), all(ltx.PageIndexElem), key("Elem_string"), key("Elem_uint8")
+  modifies $alloc, it_idx, l0_has, file_closed, c05_writeErr, c05_upErr, c05_dpos, c05_uploaded, c05_lockErr, c05_l0max, r.pos, all(litestream.DB), pos_verifyErr, all(ltx.Decoder), all(ltx.Header), all(ltx.Trailer), all(litestream.LTXError), all(ltx.PageHeader), all(ltx.PageIndexElem), key("Elem_string"), key("Elem_uint8")
   at litestream.(*Replica).lockSync#1 set c05_lockErr = $result0
   at litestream.(*DB).Pos#1 set c05_dpos = $result0.TXID
   at litestream.(*Replica).uploadLTXFile#all assert [C05.order] $arg1 == 0 && $arg2 == r.pos.TXID + 1 && $arg3 == $arg2 && $arg2 <= c05_dpos
@@ -690,7 +696,8 @@ ghost v_belief Bool
 // at the point where Close publishes the closed state (under db.mu).
 func litestream.(*DB).Close(db, ctx) (err)
   requires db != nil
-  modifies $heap, $alloc, it_idx, l0_has, file_closed, file_written, path_synced, path_handle, pub_dst, pub_renamed, enc_pages, enc_last, pm_commitOff, pm_lastCommit, sync_off, sync_sz, sync_hdr, c05_writeErr, c05_upErr, c05_dpos, c05_uploaded, c05_lockErr, tx_lockrow
+  at litestream.(*DB).syncLocked#1 assert [C01.close-flushes-all] $arg1 == 0     // the final flush is one unbounded pass (a bounded pass could stop short and Close does not loop)
+  modifies $heap, $alloc, it_idx, l0_has, file_closed, file_written, path_synced, path_handle, pub_dst, pub_renamed, enc_pages, enc_last, pm_commitOff, pm_lastCommit, sync_off, sync_sz, sync_hdr, c05_writeErr, c05_upErr, c05_dpos, c05_uploaded, c05_lockErr, c05_l0max, tx_lockrow
   at sync.(*RWMutex).Unlock#1 assert [C04.beliefs] !db.syncState.syncedToWALEnd && db.syncState.lastSyncedWALOffset == 0 && !db.syncState.syncedSinceCheckpoint && !db.syncState.truncatePassiveFailed && db.rtx == nil && db.db == nil && !db.opened
 
 // verify(): an incremental continuation (snapshotting == false) is chosen only on one of three kinds of evidence.
@@ -706,6 +713,7 @@ func litestream.(*DB).verifyWithExecutor(db, ctx, exec) (info, err)
   at litestream.(*DB).lastPageMatch#1 assert [C04.lpm-args] v_off >= 0 ==> $arg2 == v_off - (db.pageSize + 24) && $arg3 == db.pageSize + 24 && v_off - (db.pageSize + 24) > 32
   at litestream.(*DB).lastPageMatch#1 set v_lpm = $result0
   at litestream.(*DB).lastPageMatch#1 set v_lpmCalled = true
+  at litestream.(*DB).detectFullCheckpoint#1 assert [C04.detect-scope] len($arg1) == 2 && $arg1[1][0] == v_s1 && $arg1[1][1] == v_s2 && $arg1[0][0] == info.salt1 && $arg1[0][1] == info.salt2
   at litestream.(*DB).detectFullCheckpoint#1 set v_detected = $result0
   at litestream.(*DB).detectFullCheckpoint#1 set v_detCalled = true
   ensures [C04.first-sync] err == nil && old(exec.pos.TXID) == 0 ==> info.snapshotting && info.offset == 32
@@ -1085,7 +1093,7 @@ func litestream.(*VFSFile).FileSize(f) (size, err)
 func litestream.(*Replica).sync(r, ctx, maxSyncLTXFiles) (err)
   requires r != nil && r.db != nil
   assumes r.pos.TXID < 9223372036854775807     // A-txid-range
-  modifies $alloc, it_idx, l0_has, file_closed, c05_writeErr, c05_upErr, c05_dpos, c05_uploaded, c05_lockErr, r.pos, all(litestream.DB), pos_verifyErr, all(ltx.Decoder), all(ltx.Header), all(ltx.Trailer), all(litestream.LTXError), all(ltx.PageHeader), all(ltx.PageIndexElem), key("Elem_string"), key("Elem_uint8")
+  modifies $alloc, it_idx, l0_has, file_closed, c05_writeErr, c05_upErr, c05_dpos, c05_uploaded, c05_lockErr, c05_l0max, r.pos, all(litestream.DB), pos_verifyErr, all(ltx.Decoder), all(ltx.Header), all(ltx.Trailer), all(litestream.LTXError), all(ltx.PageHeader), all(ltx.PageIndexElem), key("Elem_string"), key("Elem_uint8")
   at litestream.(*Replica).syncOnce#1 reset c05_uploaded = false
   at litestream.(*Replica).syncOnce#1 reset pos_verifyErr = nil
   at litestream.(*Replica).syncOnce#1 assert [C05.pass-args] $recv == r && $arg1 == maxSyncLTXFiles
@@ -1095,7 +1103,7 @@ func litestream.(*Replica).sync(r, ctx, maxSyncLTXFiles) (err)
 func litestream.(*Replica).Sync(r, ctx) (err)
   assumes r != nil && r.db != nil     // A-replica-wired: a Replica is constructed with its DB and never loses it
   assumes r.pos.TXID < 9223372036854775807     // A-txid-range
-  modifies $alloc, it_idx, l0_has, file_closed, c05_writeErr, c05_upErr, c05_dpos, c05_uploaded, c05_lockErr, r.pos, all(litestream.DB), pos_verifyErr, all(ltx.Decoder), all(ltx.Header), all(ltx.Trailer), all(litestream.LTXError), all(ltx.PageHeader), all(ltx.PageIndexElem), key("Elem_string"), key("Elem_uint8")
+  modifies $alloc, it_idx, l0_has, file_closed, c05_writeErr, c05_upErr, c05_dpos, c05_uploaded, c05_lockErr, c05_l0max, r.pos, all(litestream.DB), pos_verifyErr, all(ltx.Decoder), all(ltx.Header), all(ltx.Trailer), all(litestream.LTXError), all(ltx.PageHeader), all(ltx.PageIndexElem), key("Elem_string"), key("Elem_uint8")
   at litestream.(*Replica).sync#1 assert [C05.unbounded-pass] $recv == r && $arg1 == 0
   ensures [C05.sync-ack] err == nil ==> r.pos.TXID == c05_dpos
 
@@ -1105,7 +1113,7 @@ ghost c01_replCalled Bool
 // SyncAndWait acknowledges only after a successful local sync followed by a successful replica sync.
 func litestream.(*DB).SyncAndWait(db, ctx) (err)
   requires db != nil && !c01_replCalled
-  modifies $heap, $alloc, c01_dbErr, c01_replErr, c01_replCalled, it_idx, l0_has, file_closed, c05_writeErr, c05_upErr, c05_dpos, c05_uploaded, c05_lockErr, file_written, path_synced, path_handle, pub_dst, pub_renamed, enc_pages, enc_last, pm_commitOff, pm_lastCommit, sync_off, sync_sz, sync_hdr, v_off, v_s1, v_s2, v_wsize, v_lpm, v_lpmCalled, v_detected, v_detCalled, v_belief, tx_lockrow, ckx_barrier, ckx_sealed, ckx_copied, ckx_after, ck_n, ck_mode, ck_restarted, pos_verifyErr, c13_evals, c13_exec, c13_lastSynced
+  modifies $heap, $alloc, c01_dbErr, c01_replErr, c01_replCalled, it_idx, l0_has, file_closed, c05_writeErr, c05_upErr, c05_dpos, c05_uploaded, c05_lockErr, c05_l0max, file_written, path_synced, path_handle, pub_dst, pub_renamed, enc_pages, enc_last, pm_commitOff, pm_lastCommit, sync_off, sync_sz, sync_hdr, v_off, v_s1, v_s2, v_wsize, v_lpm, v_lpmCalled, v_detected, v_detCalled, v_belief, tx_lockrow, ckx_barrier, ckx_sealed, ckx_copied, ckx_after, ck_n, ck_mode, ck_restarted, pos_verifyErr, c13_evals, c13_exec, c13_lastSynced
   at litestream.(*DB).Sync#1 set c01_dbErr = $result0
   at litestream.(*Replica).Sync#1 assert [C01.ack-order] c01_dbErr == nil && $recv == db.Replica
   at litestream.(*Replica).Sync#1 set c01_replErr = $result0
@@ -1227,4 +1235,11 @@ func litestream.(*Replica).CalcRestoreTarget(r, ctx, opt) (updatedAt, err)
   ensures [C15.before-first] opt.Timestamp != 0 && c15_tbErr == nil && c15_lo != 0 && opt.Timestamp < c15_lo && (c15_v3lo == 0 || opt.Timestamp < c15_v3lo) ==> err != nil
   ensures [C15.after-last] opt.Timestamp != 0 && c15_tbErr == nil && c15_hi != 0 && opt.Timestamp > c15_hi && (c15_v3hi == 0 || opt.Timestamp > c15_v3hi) ==> err != nil
   ensures [C15.no-backups] opt.Timestamp != 0 && c15_tbErr == nil && c15_lo == 0 && c15_hi == 0 && c15_v3lo == 0 && c15_v3hi == 0 ==> err != nil
+
+// C11: the staging files DB.sync publishes are plain *os.File handles, so the Sync/Close semantics assumed for
+// ltxStagingFile (Sync makes everything written so far durable, Close writes nothing) are those of os.File.
+func litestream.defaultOpenLTXFile(name, flag, perm) (f, err)
+  modifies $alloc, path_handle, path_synced
+  at os.OpenFile#1 assert [C11.staging-open-args] $arg0 == name && $arg1 == flag && $arg2 == perm
+  ensures [C11.staging-is-osfile] err == nil ==> f != nil && dyntype(f) == typeid("*os.File")
 */
